@@ -198,6 +198,18 @@ def drive_merge_laws(ctx, tier):
             call(S.merge, pool.sig(b), s)
         call(S.sort_params, s)
         call(S.sort_params, s, sources=True)
+        # the same laws with None (a value like any other) and with unequal values as defaults
+        if any(x[2] is not None for x in p):
+            pn = tuple((x[0], x[1], 'None' if x[2] is not None else None, x[3]) for x in p)
+            sn = pool.sig(pn)
+            call(S.merge, sn)
+            call(S.merge, sn, sn)
+            call(S.merge, sn, pool.sig(pn, fresh=True))
+            call(S.merge, sn, s)
+            call(S.merge, s, sn, pool.sig(tuple((x[0], x[1], '3' if x[2] is not None else None, x[3]) for x in p)))
+            for b in bares[:1]:
+                call(S.merge, sn, pool.sig(b))
+                call(S.merge, pool.sig(b), sn)
     ctx.exhaustive['merge laws over U({a,b,c},%d)' % (3 if tier == 'thorough' else 2)] = \
         not ctx.out_of_time()
 
